@@ -99,7 +99,7 @@ def clock_targets(track_notes, ts_ticks, caps):
 def valid_piece(rng, cfg, stratum="A", nseg=(1, 3), nbars=(1, 3), max_notes=7):
     """A piece meeting the tokeniser's input constraints for cfg.
     stratum A: whole-bar padded, every rest segment decomposes largest-step-first (the documented pipeline);
-    stratum B: may be ragged and may need non-greedy decompositions (known findings)."""
+    stratum B: may be ragged and may need rest decompositions that are not largest-step-first."""
     steps, values = steps_of(cfg), values_of(cfg)
     smax = max(steps)
     for _attempt in range(50):
@@ -125,6 +125,11 @@ def valid_piece(rng, cfg, stratum="A", nseg=(1, 3), nbars=(1, 3), max_notes=7):
                 b0, bl, _s = rng.choice(bars)
                 cand = [x for x in range(bl) if ck[x] and (stratum == "B" or greedy_ok(x, steps))]
                 off = rng.choice(cand)
+                if stratum == "B" and rng.random() < 0.4:
+                    # favour offsets that only a non-largest-first decomposition reaches (9 = 6 + 3 with the default steps)
+                    hard = [x for x in cand if not greedy_ok(x, steps)]
+                    if hard:
+                        off = rng.choice(hard)
                 on = b0 + off
                 ln = rng.choice(values)
                 if stratum == "A" and on + ln > total:
